@@ -29,6 +29,13 @@ type Cfg struct {
 	SiteCred     *string  `json:"site_cred,omitempty"` // Authorization value, if a --credentials entry matches the target
 	Upstream     string   `json:"upstream,omitempty"`  // "" | host:port of an HTTP proxy
 	UpstreamAuth *string  `json:"upstream_auth,omitempty"`
+	// --- C04/C05/C06 extensions (zero values leave the C01 encoding unchanged) ---
+	UpstreamKind string    `json:"upstream_kind,omitempty"`   // "" (= http when Upstream is set) | "https" | "socks5" | "other" | "failed"
+	UpstreamSch  string    `json:"upstream_scheme,omitempty"` // scheme for kind "other"
+	SocksUser    *string   `json:"socks_user,omitempty"`
+	SocksPass    *string   `json:"socks_pass,omitempty"`
+	DenyRules    []DomRule `json:"deny_rules,omitempty"`
+	MITM         bool      `json:"mitm,omitempty"`
 }
 
 type Ctx struct {
@@ -112,8 +119,32 @@ func Tokens(c *Cfg, x *Ctx, r *Request) []string {
 	if c.HasAuth {
 		t = append(t, "auth="+core.JoinList([]string{core.HexS(c.AuthUser), core.HexS(c.AuthPass)}))
 	}
-	if c.Upstream != "" {
+	switch {
+	case c.UpstreamKind == "failed":
+		t = append(t, "upstream=failed")
+	case c.Upstream == "":
+	case c.UpstreamKind == "" || c.UpstreamKind == "http":
 		t = append(t, "upstream="+core.JoinList([]string{"http", core.HexS(c.Upstream), optHex(c.UpstreamAuth)}))
+	case c.UpstreamKind == "https":
+		t = append(t, "upstream="+core.JoinList([]string{"https", core.HexS(c.Upstream), optHex(c.UpstreamAuth)}))
+	case c.UpstreamKind == "socks5":
+		if c.SocksUser == nil {
+			t = append(t, "upstream="+core.JoinList([]string{"socks5", core.HexS(c.Upstream), "~"}))
+		} else {
+			pw := ""
+			if c.SocksPass != nil {
+				pw = *c.SocksPass
+			}
+			t = append(t, "upstream="+core.JoinList([]string{"socks5", core.HexS(c.Upstream), core.HexS(*c.SocksUser), core.HexS(pw)}))
+		}
+	case c.UpstreamKind == "other":
+		t = append(t, "upstream="+core.JoinList([]string{"other", core.HexS(c.UpstreamSch), core.HexS(c.Upstream), optHex(c.UpstreamAuth)}))
+	}
+	if len(c.DenyRules) > 0 {
+		t = append(t, "denyrules="+DomRulesToken(c.DenyRules))
+	}
+	if c.MITM {
+		t = append(t, "mitm=1")
 	}
 	if r.Absolute {
 		t = append(t, "target="+core.JoinList([]string{"abs", core.HexS(r.Scheme), core.HexS(r.Authority)}))
@@ -137,12 +168,21 @@ type Outcome struct {
 	Target  string              `json:"target,omitempty"`
 	Framing int                 `json:"framing,omitempty"`
 	Fields  map[string][]string `json:"fields,omitempty"`
+	// Actions and error headers are filled by the `request`/`connect` verbs (AskRequest, AskConnect).
+	Actions  []Action            `json:"actions,omitempty"`
+	ErrBuilt map[string][]string `json:"err_built,omitempty"`
+	ErrRecv  map[string][]string `json:"err_recv,omitempty"`
 }
 
 func Ask(m *core.Model, c *Cfg, x *Ctx, r *Request) Outcome {
 	ans := m.MustAsk(append([]string{"REQ", "process"}, Tokens(c, x, r)...)...)
-	f := strings.Fields(ans)
+	return decodeOutcome(ans, strings.Fields(ans))
+}
+
+func decodeOutcome(ans string, f []string) Outcome {
 	switch f[0] {
+	case "routeerr", "mitm", "tunnel":
+		return Outcome{Kind: f[0]}
 	case "refused":
 		var st int
 		fmt.Sscan(f[1], &st)
